@@ -80,6 +80,7 @@ class Mon:
         import emmet
         self.ctx = ctx
         self.extract = emmet.extract
+        self.n_results = 0
 
     def consistency(self, line, pos, opt, cls):
         ctx = self.ctx
@@ -97,6 +98,15 @@ class Mon:
         if why:
             ctx.violation('inconsistent-result', case, {'why': why, 'result': repr(res)})
             return
+        if self.n_results % 97 == 0:
+            # "None or a result": the two can be told apart the way callers do it (==, !=, `in`), and a result equals a second extraction of the same line
+            ctx.mon('oracle:result-distinguishable-from-none')
+            again = self.extract(line, pos, opt) if opt is not None else self.extract(line, pos)
+            t = core.call(lambda: (res == None, res != None, res in (None, 0, 'x'), res == again))      # noqa: E711
+            if t[0] == 'exc' or t[1] != (False, True, False, True):
+                ctx.violation('result-not-comparable', case, {'outcome': repr(t[1])[:120]})
+                return
+        self.n_results += 1
         ctx.seen((line, pos, repr(opt)))
         if len(ctx.samples) < 2 and len(line) > 12 and res.end > (pos or 0) and res.abbreviation:
             ctx.sample({'line': line, 'pos': pos, 'options': opt, 'result': repr(res)})
